@@ -353,3 +353,36 @@ func (c *Ctx) ClosureWithStore(parent *ssa.Function, pat string) *ssa.Function {
 	c.Unresolved(parent, "closure storing "+pat, "no closure of "+c.FuncKey(parent)+" stores to "+pat)
 	return nil
 }
+
+// ReachableCallees: full names of all callees statically reachable from the roots (static calls,
+// calls of closures created in the visited functions; interface calls by their method full name),
+// following only functions of the tree, up to depth.
+func (c *Ctx) ReachableCallees(depth int, roots ...*ssa.Function) map[string]bool {
+	out := map[string]bool{}
+	seen := map[*ssa.Function]bool{}
+	var walk func(fn *ssa.Function, d int)
+	walk = func(fn *ssa.Function, d int) {
+		if fn == nil || seen[fn] || d < 0 {
+			return
+		}
+		seen[fn] = true
+		c.touch(fn)
+		for _, cl := range fn.AnonFuncs {
+			walk(cl, d) // closures are part of the function
+		}
+		for _, in := range allInstrs(fn) {
+			cc := callCommon(in)
+			if cc == nil {
+				continue
+			}
+			out[CalleeFullName(cc)] = true
+			if cal := CalleeOf(cc); cal != nil && cal.Blocks != nil && cal.Pkg != nil && c.inTree(cal.Pkg.Pkg) {
+				walk(cal, d-1)
+			}
+		}
+	}
+	for _, r := range roots {
+		walk(r, depth)
+	}
+	return out
+}
